@@ -508,6 +508,11 @@ func (s *vfSim) app(en *vfEnd) {
 			en.toWrite = en.toWrite[1:]
 			p := s.pre(en)
 			if r := k.Send(b); r != 0 {
+				if (len(b)+int(k.mss)-1)/int(k.mss) > 255 {
+					// more than 255 fragments: refusing is the documented limit; the message was not accepted
+					s.post(en, p, false, "Send")
+					continue
+				}
 				s.bad("C01:send-refused", "Send of %d bytes returned %d", len(b), r)
 			}
 			if s.cfg.Stream {
